@@ -254,8 +254,16 @@ func ruleWriteBlocksSummaries(r *core.Run, p *core.Prog) {
 		argsOK = ok && core.ObjOf(info, ix.X) == pData && core.ObjOf(info, ix.Index) == loopVar
 	}
 	if rx, _ := core.MethodCall(info, wbCall); rx != nil && argsOK {
-		ix, ok := ast.Unparen(rx).(*ast.IndexExpr)
-		argsOK = ok && core.ObjOf(info, ix.Index) == loopVar
+		// the receiver is the loop column: d.gpFiles[i], or the file returned by d.Column(i)
+		rx = resolveLocal(info, f.Decl.Body, rx)
+		if ix, ok := ast.Unparen(rx).(*ast.IndexExpr); ok {
+			argsOK = core.ObjOf(info, ix.Index) == loopVar
+		} else if o := core.ObjOf(info, rx); o != nil {
+			c, i := defCall(info, f.Decl.Body, o)
+			argsOK = c != nil && i == 0 && core.CallName(info, c) == pkgGpfile+".GPDir.Column" && len(c.Args) == 1 && core.ObjOf(info, c.Args[0]) == loopVar
+		} else {
+			argsOK = false
+		}
 	}
 	r.Check(rule, "WriteBlocks:column-gets-its-own-data", p.Rel(wbCall.Pos()), argsOK, "column i must be written with (timestamp, dbData[i]); got "+core.Str(wbCall))
 }
@@ -520,7 +528,7 @@ func ruleMetaAtomic(r *core.Run, p *core.Prog) {
 				out = append(out, ev{label: "chmod", node: c})
 			case name == "os.Rename" && len(c.Args) == 2:
 				switch {
-				case core.SelField(info, c.Args[1]) == fMeta && tmp != nil && core.MentionsObj(info, c.Args[0], tmp):
+				case core.SelField(info, resolveLocal(info, f.Decl.Body, c.Args[1])) == fMeta && tmp != nil && core.MentionsObj(info, resolveLocal(info, f.Decl.Body, c.Args[0]), tmp):
 					calls["rename-meta"] = c
 					out = append(out, ev{label: "rename-meta", node: c})
 				case core.MentionsField(info, c.Args[1], fMeta) || core.MentionsField(info, c.Args[0], fMeta):
@@ -670,8 +678,8 @@ func ruleDirClose(r *core.Run, p *core.Prog) {
 			}
 		}
 		if cond != nil && core.MentionsField(info, n, fMode) {
-			if b, ok := core.BinOp(n.(ast.Expr), token.EQL); ok && core.ObjOf(info, selOrIdent(b.Y)) != nil && core.ObjOf(info, selOrIdent(b.Y)).Name() == "ModeWrite" {
-				out = append(out, ev{label: map[bool]string{true: "mode==write", false: "mode!=write"}[*cond]})
+			if _, y, eq, ok := eqTest(n.(ast.Expr), *cond); ok && core.ObjOf(info, selOrIdent(y)) != nil && core.ObjOf(info, selOrIdent(y)).Name() == "ModeWrite" {
+				out = append(out, ev{label: map[bool]string{true: "mode==write", false: "mode!=write"}[eq]})
 			}
 		}
 		for _, c := range core.Calls(n, false) {
@@ -989,7 +997,9 @@ func ruleReadRetryOnce(r *core.Run, p *core.Prog) {
 				out = append(out, ev{label: "recurse", node: c})
 			case "errors.Is":
 				if len(c.Args) == 2 && core.Str(c.Args[1]) == "fs.ErrNotExist" && cond != nil {
-					out = append(out, ev{label: map[bool]string{true: "notexist", false: "other-error"}[*cond]})
+					if atom, truth := normCond(n.(ast.Expr), *cond); atom == ast.Expr(c) {
+						out = append(out, ev{label: map[bool]string{true: "notexist", false: "other-error"}[truth]})
+					}
 				}
 			}
 		}
